@@ -12,7 +12,7 @@ import (
 )
 
 func init() {
-	register("C16", ruleC16EscapeSet, ruleC16LexerStates, ruleC16IndexTwoSided, ruleC16Accounting)
+	register("C16", ruleC16EscapeSet, ruleC16LexerStates, ruleC16StateAgreement, ruleC16IndexTwoSided, ruleC16Accounting, ruleC16Pure)
 }
 
 // runeConstsComparedWith: integer constants that fn compares (==) with values satisfying pred.
@@ -125,6 +125,52 @@ func ruleC16EscapeSet(c *Ctx) {
 			wrapOK = strings.HasPrefix(t, `((c:"'" + `) && strings.HasSuffix(t, ` + c:"'")`)
 		}
 	})
+	// order of the replacements (innermost = applied first): the text a replacement produces must not contain
+	// a character that a LATER replacement rewrites (it would be escaped a second time and change the value)
+	{
+		type repl struct{ o, n string }
+		var chain []repl // outermost first
+		var cur ssa.Value
+		allInstrs(qs, func(_ *ssa.BasicBlock, in ssa.Instruction) {
+			if r, ok := in.(*ssa.Return); ok {
+				cur = r.Results[0]
+			}
+		})
+		var walk func(v ssa.Value, d int)
+		walk = func(v ssa.Value, d int) {
+			if d > 12 || v == nil {
+				return
+			}
+			switch x := v.(type) {
+			case *ssa.BinOp:
+				walk(x.X, d+1)
+				walk(x.Y, d+1)
+			case *ssa.Call:
+				if x.Common().StaticCallee() != nil && x.Common().StaticCallee().String() == "strings.ReplaceAll" {
+					o, _ := constString(x.Common().Args[1])
+					n, _ := constString(x.Common().Args[2])
+					chain = append(chain, repl{o, n})
+					walk(x.Common().Args[0], d+1)
+				}
+			}
+		}
+		walk(cur, 0)
+		okOrder, whyOrder := true, ""
+		for i := range chain { // chain[i] is applied AFTER chain[j] for j > i
+			for j := i + 1; j < len(chain); j++ {
+				if chain[i].o != "" && strings.Contains(chain[j].n, chain[i].o) && chain[j].o != chain[i].o {
+					okOrder, whyOrder = false, fmt.Sprintf("the replacement %q -> %q is applied before %q -> %q, which rewrites the text it produced: the value is escaped twice and no longer echoes", chain[j].o, chain[j].n, chain[i].o, chain[i].n)
+				}
+			}
+		}
+		// every replacement's output must decode back to its input for the consumer: c -> cc (doubling) or c -> \c / a documented backslash escape
+		for _, r := range chain {
+			if len(r.o) != 1 {
+				okOrder, whyOrder = false, fmt.Sprintf("replacement of the multi-character text %q", r.o)
+			}
+		}
+		c.Check(okOrder && len(chain) >= 2, "c16.escape-set", "sanitizer.QuoteString/order", c.P.Pos(qs.Pos()), fmt.Sprintf("%d replacements; none produces a character that a later one rewrites", len(chain)), whyOrder)
+	}
 	var rs []int64
 	for k := range R {
 		rs = append(rs, k)
@@ -366,4 +412,108 @@ func ruleC16Accounting(c *Ctx) {
 		}
 	}
 	c.Check(okUnused && sawUnused, "c16.accounting", key+"/unused-is-error", c.P.Pos(f.Pos()), "an argument that no placeholder used ends Sanitize with an error", "an unused argument is not reported")
+}
+
+
+// ruleC16StateAgreement: each quoting state of the placeholder lexer treats exactly the characters
+// as special that the consuming tokenizer's scanner for the same construct treats as special.
+func ruleC16StateAgreement(c *Ctx) {
+	c.Doc("c16.state-agreement", "per quoted construct, the set of special characters of the lexer's state equals that of the tokenizer's scanner for that construct (constants extracted from both): '…' and \"…\" <-> scanString/scanStringSlow {delimiter, backslash}; `…` <-> scanLiteralIdentifier/-Slow {backtick}: a character that only one side treats as an escape makes the two disagree on where the construct ends")
+	isRune := func(v ssa.Value) bool {
+		ex, ok := v.(*ssa.Extract)
+		return ok && ex.Index == 0 && strings.Contains(NewTB().Of(ex.Tuple).String(), "DecodeRuneInString")
+	}
+	consumerSet := func(names []string, delim rune) map[int64]bool {
+		out := map[int64]bool{int64(delim): true}
+		for _, n := range names {
+			f := c.tokenizerMethod(n)
+			if f == nil {
+				return nil
+			}
+			for k := range runeConstsCompared(f, func(v ssa.Value) bool {
+				t := NewTB().Of(v).String()
+				return strings.Contains(t, ".cur(") || strings.Contains(t, "buf[") || strings.Contains(t, "conv[uint16]")
+			}) {
+				if k > 0 && k < 256 {
+					out[k] = true
+				}
+			}
+		}
+		return out
+	}
+	for _, st := range []struct {
+		state   string
+		delim   rune
+		scanner []string
+	}{
+		{"singleQuoteState", '\'', []string{"scanString", "scanStringSlow"}},
+		{"doubleQuoteState", '"', []string{"scanString", "scanStringSlow"}},
+		{"backtickState", '`', []string{"scanLiteralIdentifier", "scanLiteralIdentifierSlow"}},
+	} {
+		f := c.P.Func(sanitizePath, st.state)
+		if f == nil {
+			c.Unknown("c16.state-agreement", "sanitizer."+st.state, "-", "anchor lost: no such lexer state")
+			continue
+		}
+		c.Fn("sanitizer." + st.state)
+		want := consumerSet(st.scanner, st.delim)
+		if want == nil {
+			c.Unknown("c16.state-agreement", "sanitizer."+st.state, "-", "anchor lost: tokenizer scanner not found")
+			continue
+		}
+		// the generic scanString is parameterised by its delimiter: the other quote characters are not special
+		got := map[int64]bool{}
+		for k := range runeConstsCompared(f, isRune) {
+			if k != 65533 { // utf8.RuneError: end of input
+				got[k] = true
+			}
+		}
+		var missing, extra []string
+		for k := range want {
+			if !got[k] {
+				missing = append(missing, fmt.Sprintf("%q", rune(k)))
+			}
+		}
+		for k := range got {
+			if !want[k] {
+				extra = append(extra, fmt.Sprintf("%q", rune(k)))
+			}
+		}
+		sort.Strings(missing)
+		sort.Strings(extra)
+		why := ""
+		if len(missing) > 0 {
+			why = "the tokenizer treats " + strings.Join(missing, ",") + " as special inside this construct, the lexer does not"
+		}
+		if len(extra) > 0 {
+			why += " the lexer treats " + strings.Join(extra, ",") + " as special inside this construct, the tokenizer does not"
+		}
+		c.Check(len(missing) == 0 && len(extra) == 0, "c16.state-agreement", "sanitizer."+st.state, c.P.Pos(f.Pos()), fmt.Sprintf("same special characters on both sides (%d)", len(want)), strings.TrimSpace(why))
+	}
+}
+
+// ruleC16Pure: sanitizing is a function of (template, arguments) only.
+func ruleC16Pure(c *Ctx) {
+	c.Doc("c16.pure", "no function reachable from SanitizeSQL reads or writes a package-level variable of the module (no pooled buffers, caches or counters): the text produced for a call cannot depend on earlier calls, in particular not on a call that failed half-way")
+	f := c.P.Func(sanitizePath, "SanitizeSQL")
+	if f == nil {
+		c.Unknown("c16.pure", "sanitizer.SanitizeSQL", "-", "anchor lost")
+		return
+	}
+	bad := ""
+	n := 0
+	for g := range c.P.reachableFrom(f) {
+		if !c.P.InModule(g) {
+			continue
+		}
+		n++
+		allInstrs(g, func(_ *ssa.BasicBlock, in ssa.Instruction) {
+			for _, op := range in.Operands(nil) {
+				if gl, ok := (*op).(*ssa.Global); ok && gl.Pkg != nil && strings.HasPrefix(gl.Pkg.Pkg.Path(), modPath) {
+					bad = fmt.Sprintf("%s uses the package-level variable %s at %s", c.P.funcKey(g), gl.Name(), c.P.Pos(in.Pos()))
+				}
+			}
+		})
+	}
+	c.Check(bad == "", "c16.pure", "sanitizer.SanitizeSQL", c.P.Pos(f.Pos()), fmt.Sprintf("%d reachable module functions use no package-level state", n), bad)
 }
